@@ -649,6 +649,7 @@ impl World {
             }
             TxClass::FromReal => tx.real,
             TxClass::FromStub => !tx.real && !tx.noise,
+            TxClass::TokenAfterUs(t) => matches!(f, Some(Frame::Token { .. })) && tx.start >= self.us(*t),
         }
     }
 
@@ -989,6 +990,9 @@ impl World {
                         self.slaves[*slave].byz.push_back(shape.clone());
                     }
                     self.stats.add("fault.slave_byzantine_reply", u64::from(*count));
+                    if matches!(shape, ByzShape::Nested) {
+                        self.stats.add("fault.slave_reply_nested_in_damaged_telegram", u64::from(*count));
+                    }
                 }
             }
             FaultKind::SlaveFlag { slave, flag, count } => {
